@@ -212,6 +212,20 @@ def run(prog, chk):
     if unterminated_rule(prog, r6) < 3:
         raise Broken("fewer than 3 scan functions with an end-of-input recovery found")
 
+    r8 = chk.rule("R8-nothing-handed-back-at-end-of-input", "BACK_UP returns the character just scanned (a line terminator, the start "
+                  "of the next token) to the input: no BACK_UP is reachable from the outcome `end of input` of a refill without "
+                  "another character having been scanned in between - at end of input there is nothing to hand back, and the "
+                  "last character of the token would be scanned again as a token of its own", primary=False, floor=4)
+    if backup_rule(prog, r8) < 4:
+        raise Broken("fewer than 4 BACK_UP sites in functions that test for CIF_EOF")
+
+    r7 = chk.rule("R7-disallowed-character-class", "the per-character validation macro reports each non-character code unit (U+FEFF, "
+                  "U+FFFE/F, U+FDD0..FDEF) as CIF_DISALLOWED_CHAR and no ordinary character, in every scan function "
+                  "(evaluated over the CFG for chosen code units)", primary=False, floor=5)
+    from .. import chareval
+    if chareval.rule(prog, r7) < 5:
+        raise Broken("fewer than 5 expansions of SCAN_UCHAR")
+
 
 # moves of next_char whose column accounting happens elsewhere, each with its reason
 COLUMN_EXEMPT = {
@@ -443,3 +457,58 @@ def unterminated_rule(prog, rule):
             else:
                 rule.ok(key, "only 0 reaches the length computation after the end-of-input report")
     return n
+
+
+def backup_rule(prog, rule):
+    eof = prog.macro_int("CIF_EOF")
+    n = 0
+    for fn in prog.all_functions():
+        if fn.unit != "parser.c":
+            continue
+        backs, consumes = [], set()
+        for (b, i, r, a) in fn.eval_sites("asg"):
+            lp = path(strip(a.get("lhs"))) or ""
+            if not lp.endswith("next_char"):
+                continue
+            if a.get("op") == "-=" and "BACK_UP" in (a.get("ms") or []):
+                backs.append((b, i, a))
+            elif a.get("op") == "+=":
+                consumes.add(b.id)
+        for (b, i, r, x) in fn.eval_sites("un"):
+            if x.get("op") in ("pre++", "post++") and (path(strip(x.get("e"))) or "").endswith("next_char"):
+                consumes.add(b.id)
+        if not backs:
+            continue
+
+        def is_eof(cnd):
+            t = cfgq.cmp_test(cnd, lambda e: path(strip(e)) is not None)
+            if t is None or t[1] != eof or macro_name(strip(cnd).get("rhs")) != "CIF_EOF" and macro_name(strip(cnd).get("lhs")) != "CIF_EOF":
+                return None
+            return "true" if t[0] == "==" else ("false" if t[0] == "!=" else None)
+        edges = cfgq.guard_edges(fn, is_eof)
+        # case CIF_EOF: labels
+        starts = [fn.blocks[bid].succs[idx] for (bid, idx) in edges if fn.blocks[bid].succs[idx] is not None]
+        for bb in fn.blocks.values():
+            if bb.label and bb.label.get("k") == "case" and bb.label.get("v") == eof and "CIF_EOF" in str(bb.label):
+                starts.append(bb.id)
+        if not starts:
+            continue
+        after_eof = set()
+        for s0 in starts:
+            if s0 in consumes:
+                continue
+            # path-sensitive in the status variable: `ev == CIF_OK` after a look-ahead is decided the same way each time
+            after_eof |= set(cfgq.fact_reach(fn, [s0], consumes))
+        for (b, i, a) in backs:
+            n += 1
+            key = "%s:L%s" % (fn.name, a.get("l"))
+            if b.id in after_eof and b.id not in consumes:
+                rule.violation(fn.file, fn.name, a.get("l"), "back-up-at-end-of-input:%s" % fn.name,
+                               "BACK_UP at L%s is reached from the `end of input` outcome of a refill (tests at lines %s) without any "
+                               "character having been scanned after it: the scanner steps back over the last character of the token, "
+                               "which is then delivered a second time as a separate token"
+                               % (a.get("l"), ", ".join(sorted({str(fn.blocks[bid].term.get("l")) for (bid, idx) in edges}))))
+            else:
+                rule.ok(key, "only reached after a character was scanned")
+    return n
+
